@@ -71,7 +71,7 @@ func (s failStore) Read(ctx context.Context, from eventbus.Offset, limit int) ([
 type hangStore struct{ mem *eventbus.MemoryStore }
 
 func (s hangStore) Append(ctx context.Context, ev *eventbus.Event) (eventbus.Offset, error) {
-	<-ctx.Done()
+	vrt.Recv(ctx.Done()) // the 1 ms persistence timeout always expires (virtual time)
 	return "", ctx.Err()
 }
 func (s hangStore) Read(ctx context.Context, from eventbus.Offset, limit int) ([]*eventbus.StoredEvent, eventbus.Offset, error) {
